@@ -355,6 +355,50 @@ func c05main(c *Ctx) {
 					break
 				}
 			}
+			// attribute objects that belong to the APPLICATION and serve two loggers: a group built once and logged through a
+			// logger that has a group of the same name bound to it, then through a logger that has not; an attribute list
+			// bound to two loggers, one of which is Set anew under the same keys. The other logger's record holds what was
+			// logged through THAT logger.
+			if idx%5 == 3 {
+				str := func(k, v string) gen.KV { return gen.KV{Key: k, Val: gen.V{Kind: "str", Text: v, Go: v}} }
+				i64 := func(k string, v int64) gen.KV { return gen.KV{Key: k, Val: gen.V{Kind: "i64", I: v, Go: v}} }
+				grp := func(k string, items ...gen.KV) gen.KV { return gen.KV{Key: k, Val: gen.V{Kind: "group", Items: items}} }
+				callerOn := slog.GetFlags()&slog.Lcaller != 0
+				judge := func(what string, evs []mon.Event, rc recCase) bool {
+					if len(evs) != 1 || evs[0].Kind != mon.EvWrite {
+						c.R.Violation(idx, "one-write", "C05/one-write/"+what, fmt.Sprintf("expected exactly one Write, saw %s", fmtEvents(evs)), rc.desc(FLogfmt))
+						return false
+					}
+					if vs := c05check(evs[0].Data, rc); len(vs) > 0 {
+						c.R.Violation(idx, vs[0].clause, "C05/"+vs[0].clause+"/"+what, fmt.Sprintf("%s\npayload: %s", vs[0].detail, q(clip(string(evs[0].Data), 900))), rc.desc(FLogfmt))
+						return false
+					}
+					return true
+				}
+				la := newRoot(cs.name, FLogfmt, w, slog.AlwaysLevel)
+				lb := newRoot(cs.name, FLogfmt, w, slog.AlwaysLevel)
+				la.Set(slog.Group("req~", "id", 7))
+				req := slog.Group("req~", "path", "/x")
+				capture(log, func() { la.Info("through the logger that has a group of that name", req) })
+				evs := capture(log, func() { lb.Info("one group object, second logger", req) })
+				if !judge("application-owned-group-through-a-second-logger", evs, recCase{name: cs.name, msg: "one group object, second logger", lvl: slog.InfoLevel, caller: callerOn,
+					kvs: []gen.KV{grp("req~", str("path", "/x"))}}) {
+					return
+				}
+				common := slog.NewAttrs("svc~", "billing", "ver~", "1", slog.Group("node~", "zone", "eu", "rack", 4))
+				lc := newRoot(cs.name, FLogfmt, w, slog.AlwaysLevel)
+				ld := newRoot(cs.name, FLogfmt, w, slog.AlwaysLevel)
+				lc.SetAttrs1(common)
+				ld.SetAttrs1(common)
+				lc.Set("ver~", "2", slog.Group("node~", "zone", "us"))
+				capture(log, func() { lc.Info("through the logger that was Set anew") })
+				evs = capture(log, func() { ld.Info("one attribute list, second logger", "n~", 1) })
+				if !judge("application-owned-attribute-list-bound-to-two-loggers", evs, recCase{name: cs.name, msg: "one attribute list, second logger", lvl: slog.InfoLevel, caller: callerOn,
+					kvs: []gen.KV{str("svc~", "billing"), str("ver~", "1"), grp("node~", str("zone", "eu"), i64("rack", 4)), i64("n~", 1)}}) {
+					return
+				}
+				c.R.Add("records_through_the_second_owner_of_an_application_owned_attribute_object", 2)
+			}
 			return
 		}
 		culprits, residual := explain(cs, run)
